@@ -57,6 +57,8 @@ def check(run):
         run.guard("C15.via.C07.4.deserialize", cfg, lambda: _C07d.rule_deserialize(bd, F, cfg))
         be = run.borrow("C01", why="csp rules that differ only in their tag are different rules: no entry point may de-duplicate them away")
         run.guard("C15.via.C01.9.entry-points", cfg, lambda: _C01.rule_entry_points(be, F, cfg))
+        btc = run.borrow("C01", why="the policy is claimed for every document request, also those whose URL has 127 or more tokens")
+        run.guard("C15.via.C01.4.token-boundary", cfg, lambda: _C01.rule_token_cap_unbounded(btc, F, cfg))
 
 
 def rule_type_gate(run, F, cfg):
